@@ -400,6 +400,7 @@ func TestC06(t *testing.T) {
 	df := decryptFailCases(p, env.Seed+1)
 	cases = append(cases, df...)
 	cases = append(cases, shortHeaderCases(p, env.Seed+1)...)
+	cases = append(cases, bigJumpCases(p, env.Seed+1)...)
 	params["decrypt_fails_once_cases"] = len(df)
 	params["retx_replay_cases"] = len(retx)
 	params["arrival_sequences"] = total
